@@ -107,7 +107,7 @@ def mkdir(s, tag):
         with open(os.path.join(d, rel), "w") as f:
             f.write(content)
     os.makedirs(os.path.dirname(os.path.join(d, FN)) or d, exist_ok=True)
-    with open(os.path.join(d, FN), "w", newline="") as f:
+    with open(os.path.join(d, FN), "w", newline="", encoding="utf-8") as f:
         f.write(scenario_text(s))
     return d
 
@@ -175,11 +175,11 @@ def observe(s, want=("lint", "fix", "format", "api", "lint_paths")):
         d = mkdir(s, cmd[0] + "p")
         with loop_limit_spy() as hit:
             rc, out, err, exc = cli.run([cmd, FN] + flags, cwd=d)
-        obs[cmd + "_path"] = {"rc": rc, "text": open(os.path.join(d, FN), newline="").read(), "exc": exc, "loop_limit": bool(hit)}
+        obs[cmd + "_path"] = {"rc": rc, "text": open(os.path.join(d, FN), newline="", encoding="utf-8", errors="surrogateescape").read(), "exc": exc, "loop_limit": bool(hit)}
         d = mkdir(s, cmd[0] + "s")
         with loop_limit_spy() as hit:
             rc, out, err, exc = cli.run([cmd, "-", "--stdin-filename", FN] + flags, input=text, cwd=d)
-        obs[cmd + "_stdin"] = {"rc": rc, "text": out, "exc": exc, "file_after": open(os.path.join(d, FN), newline="").read(), "loop_limit": bool(hit)}
+        obs[cmd + "_stdin"] = {"rc": rc, "text": out, "exc": exc, "file_after": open(os.path.join(d, FN), newline="", encoding="utf-8", errors="surrogateescape").read(), "loop_limit": bool(hit)}
     if "api" in want or "lint_paths" in want:
         from sqlfluff.core import FluffConfig, Linter
 
@@ -216,7 +216,7 @@ def observe(s, want=("lint", "fix", "format", "api", "lint_paths")):
                 lnt = Linter(config=cfg)
                 with loop_limit_spy() as hit:
                     res = lnt.lint_paths((FN,), fix=True, apply_fixes=True, fix_even_unparsable=bool(s.get("feu")))
-                obs["fix_lint_paths"] = {"text": open(FN, newline="").read(), "loop_limit": bool(hit)}
+                obs["fix_lint_paths"] = {"text": open(FN, newline="", encoding="utf-8", errors="surrogateescape").read(), "loop_limit": bool(hit)}
             except Exception as e:
                 obs["fix_lint_paths"] = {"exc": repr(e)[:300]}
             finally:
